@@ -27,6 +27,7 @@ from holopy.core.errors import raise_fitting_api_error
 from holopy.scattering.errors import (MultisphereFailure, TmatrixFailure,
                                       InvalidScatterer, MissingParameter)
 from holopy.scattering.interface import calc_holo, interpret_theory
+from holopy.scattering.scatterer import RigidCluster
 from holopy.inference import prior
 from holopy.core.mapping import Mapper, read_map, edit_map_indices
 
@@ -203,7 +204,12 @@ class Model(HoloPyObject):
                 dummy_parameters[key] = [0 for _ in value]
             else:
                 dummy_parameters[key] = 0
-        return scatterer.from_parameters(dummy_parameters)
+        dummy = scatterer.from_parameters(dummy_parameters)
+        if isinstance(scatterer, RigidCluster):
+            # RigidCluster.from_parameters returns the equivalent Spheres,
+            # which would silently drop rotation and translation later on
+            dummy = RigidCluster(dummy)
+        return dummy
 
     def ensure_parameters_are_listlike(self, pars):
         if isinstance(pars, dict):
